@@ -237,7 +237,10 @@ def check(plan) -> Result:
     faults = stack.line.h2n.hits + stack.line.n2h.hits
     late = plan.get("spont") == "late" or plan.get("spont2") == "late"
     clean = not faults and not late
-    tv = V if V <= 14 else 14
+    import bellows.ezsp as _e
+
+    supported = sorted(_e.EZSP._BY_VERSION)  # "its own command tables for supported versions, the newest known tables for newer ones"
+    tv = V if V in supported else supported[-1]
     vtag = f"V{V}" if V <= 14 else "V>14"
     # --- API outcomes
     for s in steps:
